@@ -1,0 +1,98 @@
+//! Verification seam, only compiled with the `verif_hooks` feature.
+//!
+//! `std`'s `RandomState` takes its keys from OS entropy and cannot be seeded,
+//! so the iteration order of every `HashMap`/`HashSet` in the crate is a source
+//! of nondeterminism a deterministic simulator cannot own. With the feature on,
+//! the modules that use hash maps import the aliases below instead of the
+//! `std::collections` types. The table implementation is still `std`'s; only
+//! the hasher is replaced by one whose key is a pure function of
+//! ([`reseed`] value, number of maps created since).
+//!
+//! With the feature off this module does not exist and the crate is unchanged.
+
+use std::hash::{BuildHasher, Hasher};
+use std::sync::atomic::{AtomicU64, Ordering};
+
+static NEXT: AtomicU64 = AtomicU64::new(0x9E37_79B9_7F4A_7C15);
+static CREATED: AtomicU64 = AtomicU64::new(0);
+
+/// Reset the key source. Every hasher state created afterwards gets
+/// `seed`, `seed + 1`, ...
+pub fn reseed(seed: u64) {
+    NEXT.store(seed, Ordering::SeqCst);
+}
+
+/// Number of hasher states created since the process started.
+pub fn created() -> u64 {
+    CREATED.load(Ordering::SeqCst)
+}
+
+/// Seeded replacement of `std::collections::hash_map::RandomState`
+#[derive(Clone, Debug)]
+pub struct SimState(u64);
+
+impl Default for SimState {
+    fn default() -> Self {
+        CREATED.fetch_add(1, Ordering::SeqCst);
+        SimState(NEXT.fetch_add(1, Ordering::SeqCst))
+    }
+}
+
+/// FNV-1a over the written bytes, keyed, with a SplitMix64 finaliser
+pub struct SimHasher(u64);
+
+impl Hasher for SimHasher {
+    fn finish(&self) -> u64 {
+        let mut z = self.0;
+        z ^= z >> 30;
+        z = z.wrapping_mul(0xBF58_476D_1CE4_E5B9);
+        z ^= z >> 27;
+        z = z.wrapping_mul(0x94D0_49BB_1331_11EB);
+        z ^ (z >> 31)
+    }
+
+    fn write(&mut self, bytes: &[u8]) {
+        for b in bytes {
+            self.0 = (self.0 ^ (*b as u64)).wrapping_mul(0x0000_0100_0000_01b3);
+        }
+    }
+}
+
+impl BuildHasher for SimState {
+    type Hasher = SimHasher;
+
+    fn build_hasher(&self) -> SimHasher {
+        SimHasher(self.0.wrapping_mul(0x9E37_79B9_7F4A_7C15) ^ 0xcbf2_9ce4_8422_2325)
+    }
+}
+
+pub type HashMap<K, V> = std::collections::HashMap<K, V, SimState>;
+pub type HashSet<K> = std::collections::HashSet<K, SimState>;
+
+/// `HashMap::new()` / `with_capacity()` only exist for `RandomState`; this
+/// trait gives the aliased types the same constructors so call sites compile
+/// unchanged.
+pub trait SeamCtor {
+    fn new() -> Self;
+    fn with_capacity(n: usize) -> Self;
+}
+
+impl<K, V> SeamCtor for HashMap<K, V> {
+    fn new() -> Self {
+        Self::default()
+    }
+
+    fn with_capacity(n: usize) -> Self {
+        Self::with_capacity_and_hasher(n, SimState::default())
+    }
+}
+
+impl<K> SeamCtor for HashSet<K> {
+    fn new() -> Self {
+        Self::default()
+    }
+
+    fn with_capacity(n: usize) -> Self {
+        Self::with_capacity_and_hasher(n, SimState::default())
+    }
+}
